@@ -114,9 +114,63 @@ Ltac split_eqb :=
              let E := fresh "E" in destruct (a =? b) eqn:E; [apply Z.eqb_eq in E | apply Z.eqb_neq in E]
          end.
 
-(* state of the generated fold = (new_temporal_strides, new_upper_bounds); abstraction = combine ubs tss *)
+(* the generated fold carries the two accumulators (temporal strides, upper bounds); abstraction = combine ubs tss *)
 Definition st_ok (tss ubs : list Z) (acc : list (Z * Z)) : Prop :=
   length tss = length ubs /\ combine ubs tss = acc.
+
+(* The generated fold keeps its two accumulators in a pair whose ORDER is the alphabetical order of the
+   Python local names (translator: `sorted`).  The refinement is therefore proved for both orders (`mk` builds
+   the state pair from the strides accumulator and the bounds accumulator), so that renaming the locals of
+   StridePattern.canonicalize does not break the proof. *)
+Ltac canon_step_tac :=
+  let tss := fresh "tss" in let ubs := fresh "ubs" in let ub := fresh "ub" in let ts := fresh "ts" in
+  let acc := fresh "acc" in let Hl := fresh "Hl" in let Hc := fresh "Hc" in
+  let E0 := fresh "E0" in let E1 := fresh "E1" in
+  let ubs' := fresh "ubs'" in let xb := fresh "xb" in let tss' := fresh "tss'" in let xs := fresh "xs" in
+  intros tss ubs ub ts acc [Hl Hc]; subst acc; unfold sp_step; cbn beta;
+  destruct (ub =? 0) eqn:E0;
+  [ eexists _, _; split; [reflexivity|]; split; [rewrite !app_length; simpl; lia|]; apply combine_snoc; lia |];
+  destruct (ub =? 1) eqn:E1;
+  [ eexists _, _; split; [reflexivity|]; split; [exact Hl|reflexivity] |];
+  destruct (snoc_cases ubs) as [->|[ubs' [xb ->]]];
+  [ destruct tss; [|discriminate Hl]; cbn; eexists _, _; split; [reflexivity|]; split; reflexivity |];
+  destruct (snoc_cases tss) as [->|[tss' [xs ->]]];
+  [ rewrite app_length in Hl; simpl in Hl; lia |];
+  assert (length tss' = length ubs') by (rewrite !app_length in Hl; simpl in Hl; lia);
+  rewrite combine_snoc by lia; rewrite rev_app_distr; cbn [rev app];
+  replace (negb (Z.of_nat (length (ubs' ++ [xb])) =? 0)) with true
+    by (rewrite app_length; simpl; symmetry; apply negb_true_iff; lia);
+  rewrite !list_last_snoc; split_eqb; try (exfalso; lia);
+  [ rewrite list_set_last_snoc; eexists _, _; split; [reflexivity|];
+    split; [rewrite !app_length; simpl; lia|]; rewrite combine_snoc by lia; rewrite rev_involutive; reflexivity
+  | eexists _, _; split; [reflexivity|]; split; [rewrite !app_length; simpl; lia|];
+    rewrite <- combine_snoc by lia; apply combine_snoc; rewrite !app_length; simpl; lia ].
+
+Definition mk_tu (t u : list Z) : list Z * list Z := (t, u).     (* state = (strides, bounds) *)
+Definition mk_ut (t u : list Z) : list Z * list Z := (u, t).     (* state = (bounds, strides) *)
+
+Ltac canon_refines_tail mk step H p :=
+  let Hstep := fresh "Hstep" in let Hfold := fresh "Hfold" in
+  assert (Hstep : forall tss ubs ub ts acc, st_ok tss ubs acc ->
+            exists tss' ubs', step (Some (Cont (mk tss ubs))) (ub, ts) = Some (Cont (mk tss' ubs'))
+                              /\ st_ok tss' ubs' (sp_step acc (ub, ts)))
+    by (unfold step, mk; canon_step_tac);
+  clearbody step;
+  assert (Hfold : forall items tss ubs acc, st_ok tss ubs acc ->
+            exists tss' ubs', fold_left step items (Some (Cont (mk tss ubs))) = Some (Cont (mk tss' ubs'))
+                              /\ st_ok tss' ubs' (fold_left sp_step items acc))
+    by (let items := fresh "items" in let IH := fresh "IH" in let Hok := fresh "Hok" in
+        let tss := fresh "tss" in let ubs := fresh "ubs" in let acc := fresh "acc" in
+        let ub := fresh "ub" in let ts := fresh "ts" in
+        induction items as [|[ub ts] items IH]; intros tss ubs acc Hok; cbn [fold_left];
+        [ eexists _, _; split; [reflexivity|exact Hok]
+        | let t1 := fresh "t1" in let u1 := fresh "u1" in let E1 := fresh "E1" in let Hok1 := fresh "Hok1" in
+          destruct (Hstep tss ubs ub ts acc Hok) as [t1 [u1 [E1 Hok1]]]; rewrite E1; apply IH; exact Hok1 ]);
+  let t' := fresh "t'" in let u' := fresh "u'" in let E := fresh "E" in let Hl := fresh "Hl" in let Hc := fresh "Hc" in
+  destruct (Hfold (combine (sp_ub p) (sp_ts p)) (@nil Z) (@nil Z) (@nil (Z * Z))) as [t' [u' [E [Hl Hc]]]];
+  [split; reflexivity|];
+  unfold mk in E; rewrite E in H; injection H as <-;
+  cbn [sp_ss sp_ub sp_ts]; split; [reflexivity|]; split; [lia|exact Hc].
 
 Lemma gen_canon_refines p p' :
   StridePattern_canonicalize p = Some p' ->
@@ -128,38 +182,30 @@ Proof.
   { intros H. injection H as <-. left. split; reflexivity. }
   rewrite !map_id. intros H. right. split; [reflexivity|].
   match type of H with context[fold_left ?f _ _] => set (step := f) in H end.
-  assert (Hstep : forall tss ubs ub ts acc, st_ok tss ubs acc ->
-            exists tss' ubs', step (Some (Cont (tss, ubs))) (ub, ts) = Some (Cont (tss', ubs'))
-                              /\ st_ok tss' ubs' (sp_step acc (ub, ts))).
-  { intros tss ubs ub ts acc [Hl Hc]. subst acc. unfold step, sp_step.
-    destruct (ub =? 0) eqn:E0.
-    { eexists _, _. split; [reflexivity|]. split; [rewrite !app_length; simpl; lia|]. apply combine_snoc. lia. }
-    destruct (ub =? 1) eqn:E1.
-    { eexists _, _. split; [reflexivity|]. split; [exact Hl|reflexivity]. }
-    destruct (snoc_cases ubs) as [->|[ubs' [xb ->]]].
-    { destruct tss; [|discriminate Hl]. cbn. eexists _, _. split; [reflexivity|]. split; reflexivity. }
-    destruct (snoc_cases tss) as [->|[tss' [xs ->]]].
-    { rewrite app_length in Hl. simpl in Hl. lia. }
-    assert (Hl' : length tss' = length ubs') by (rewrite !app_length in Hl; simpl in Hl; lia).
-    rewrite combine_snoc by lia. rewrite rev_app_distr. cbn [rev app].
-    replace (negb (Z.of_nat (length (ubs' ++ [xb])) =? 0)) with true
-      by (rewrite app_length; simpl; symmetry; apply negb_true_iff; lia).
-    rewrite !list_last_snoc. split_eqb; try (exfalso; lia).
-    - rewrite list_set_last_snoc. eexists _, _. split; [reflexivity|].
-      split; [rewrite !app_length; simpl; lia|]. rewrite combine_snoc by lia. rewrite rev_involutive. reflexivity.
-    - eexists _, _. split; [reflexivity|]. split; [rewrite !app_length; simpl; lia|].
-      rewrite <- combine_snoc by lia. apply combine_snoc. rewrite !app_length; simpl; lia. }
-  clearbody step.
-  assert (Hfold : forall items tss ubs acc, st_ok tss ubs acc ->
-            exists tss' ubs', fold_left step items (Some (Cont (tss, ubs))) = Some (Cont (tss', ubs'))
-                              /\ st_ok tss' ubs' (fold_left sp_step items acc)).
-  { induction items as [|[ub ts] items IH]; intros tss ubs acc Hok; cbn [fold_left].
-    - eexists _, _. split; [reflexivity|exact Hok].
-    - destruct (Hstep tss ubs ub ts acc Hok) as [tss1 [ubs1 [E1 Hok1]]]. rewrite E1. apply IH. exact Hok1. }
-  destruct (Hfold (combine (sp_ub p) (sp_ts p)) [] [] []) as [tss' [ubs' [E [Hl Hc]]]]; [split; reflexivity|].
-  change (@nil Z : list Z) with (@nil Z) in H. rewrite E in H. injection H as <-.
-  cbn [sp_ss sp_ub sp_ts]. split; [reflexivity|]. split; [lia|exact Hc].
+  first [ canon_refines_tail mk_tu step H p | canon_refines_tail mk_ut step H p ].
 Qed.
+
+Ltac canon_total_tail mk step p :=
+  let Hstep := fresh "Hstep" in let Hfold := fresh "Hfold" in
+  assert (Hstep : forall tss ubs ub ts acc, st_ok tss ubs acc ->
+            exists tss' ubs', step (Some (Cont (mk tss ubs))) (ub, ts) = Some (Cont (mk tss' ubs'))
+                              /\ st_ok tss' ubs' (sp_step acc (ub, ts)))
+    by (unfold step, mk; canon_step_tac);
+  clearbody step;
+  assert (Hfold : forall items tss ubs acc, st_ok tss ubs acc ->
+            exists tss' ubs', fold_left step items (Some (Cont (mk tss ubs))) = Some (Cont (mk tss' ubs'))
+                              /\ st_ok tss' ubs' (fold_left sp_step items acc))
+    by (let items := fresh "items" in let IH := fresh "IH" in let Hok := fresh "Hok" in
+        let tss := fresh "tss" in let ubs := fresh "ubs" in let acc := fresh "acc" in
+        let ub := fresh "ub" in let ts := fresh "ts" in
+        induction items as [|[ub ts] items IH]; intros tss ubs acc Hok; cbn [fold_left];
+        [ eexists _, _; split; [reflexivity|exact Hok]
+        | let t1 := fresh "t1" in let u1 := fresh "u1" in let E1 := fresh "E1" in let Hok1 := fresh "Hok1" in
+          destruct (Hstep tss ubs ub ts acc Hok) as [t1 [u1 [E1 Hok1]]]; rewrite E1; apply IH; exact Hok1 ]);
+  let t' := fresh "t'" in let u' := fresh "u'" in let E := fresh "E" in
+  destruct (Hfold (combine (sp_ub p) (sp_ts p)) (@nil Z) (@nil Z) (@nil (Z * Z))) as [t' [u' [E _]]];
+  [split; reflexivity|];
+  unfold mk in E; rewrite E; discriminate.
 
 (* ---- the theorem ------------------------------------------------------------------------------ *)
 Theorem stride_canon_words p p' :
@@ -175,35 +221,14 @@ Proof.
   destruct ts as [|t ts]; [constructor|]. inversion Hb; subst. cbn [combine]. constructor; [assumption|apply IH; assumption].
 Qed.
 
-(* canonicalize never fails (no exception path) *)
+(* canonicalize never fails (no exception path): every pattern is in the domain of the refinement *)
 Theorem stride_canon_total p : exists p', StridePattern_canonicalize p = Some p'.
 Proof.
   destruct (StridePattern_canonicalize p) as [p'|] eqn:E; [eauto|exfalso].
   revert E. unfold StridePattern_canonicalize. destruct (existsb _ (sp_ss p)); [discriminate|].
   rewrite !map_id.
   match goal with |- context[fold_left ?f _ _] => set (step := f) end.
-  assert (Hstep : forall tss ubs d, length tss = length ubs ->
-            exists tss' ubs', step (Some (Cont (tss, ubs))) d = Some (Cont (tss', ubs')) /\ length tss' = length ubs').
-  { intros tss ubs [ub ts] Hl. unfold step.
-    destruct (ub =? 0). { eexists _, _. split; [reflexivity|]. rewrite !app_length; simpl; lia. }
-    destruct (ub =? 1). { eexists _, _. split; [reflexivity|exact Hl]. }
-    destruct (snoc_cases ubs) as [->|[ubs' [xb ->]]].
-    { destruct tss; [|discriminate Hl]. cbn. eexists _, _. split; reflexivity. }
-    destruct (snoc_cases tss) as [->|[tss' [xs ->]]].
-    { rewrite app_length in Hl. simpl in Hl. lia. }
-    replace (negb (Z.of_nat (length (ubs' ++ [xb])) =? 0)) with true
-      by (rewrite app_length; simpl; symmetry; apply negb_true_iff; lia).
-    rewrite !list_last_snoc. split_eqb; try (exfalso; lia).
-    - rewrite list_set_last_snoc. eexists _, _. split; [reflexivity|]. rewrite !app_length in *; simpl in *; lia.
-    - eexists _, _. split; [reflexivity|]. rewrite !app_length in *; simpl in *; lia. }
-  clearbody step.
-  assert (Hfold : forall items tss ubs, length tss = length ubs ->
-            exists tss' ubs', fold_left step items (Some (Cont (tss, ubs))) = Some (Cont (tss', ubs')) /\ length tss' = length ubs').
-  { induction items as [|d items IH]; intros tss ubs Hl; cbn [fold_left].
-    - eexists _, _. split; [reflexivity|exact Hl].
-    - destruct (Hstep tss ubs d Hl) as [t1 [u1 [E1 H1]]]. rewrite E1. apply IH. exact H1. }
-  destruct (Hfold (combine (sp_ub p) (sp_ts p)) [] [] eq_refl) as [t' [u' [E _]]].
-  change (@nil Z : list Z) with (@nil Z). rewrite E. discriminate.
+  first [ canon_total_tail mk_tu step p | canon_total_tail mk_ut step p ].
 Qed.
 
 (* ---- idempotence ------------------------------------------------------------------------------
